@@ -20,10 +20,10 @@ import (
 // the readers it returns are stacked on top (a stream id is served by the last reader holding it).
 type Env struct {
 	Root, Stage, PcapDir, IndexDir, SnapDir string
-	B                                      *builder.Builder
-	Readers                                []*index.Reader
-	Imports                                int
-	LastAdded, LastUpdated, LastReset      []uint64
+	B                                       *builder.Builder
+	Readers                                 []*index.Reader
+	Imports                                 int
+	LastAdded, LastUpdated, LastReset       []uint64
 }
 
 // scratchBase is the parent of all scratch directories: a memory file system when there is one
